@@ -1,0 +1,125 @@
+// Transport seam for deterministic simulation.
+//
+// This module is compiled only with `--cfg dropshot_verif` (never in a normal
+// build).  It provides stand-ins for `tokio::net::{TcpListener, TcpStream}`
+// whose behaviour is supplied by a simulator living outside this crate: the
+// simulator installs a per-thread "binder" that is asked for a listener when
+// the server binds its address, and every accepted connection is an arbitrary
+// `AsyncRead + AsyncWrite` object.  Nothing else in the server changes.
+
+use std::cell::RefCell;
+use std::fmt;
+use std::io;
+use std::net::SocketAddr;
+use std::pin::Pin;
+use std::task::{Context, Poll};
+use tokio::io::{AsyncRead, AsyncWrite, ReadBuf};
+
+/// Byte stream supplied by the simulator for one accepted connection.
+pub trait SimIo: AsyncRead + AsyncWrite + Send + Unpin + 'static {}
+impl<T: AsyncRead + AsyncWrite + Send + Unpin + 'static> SimIo for T {}
+
+/// Stand-in for `tokio::net::TcpStream`.
+pub struct TcpStream(Box<dyn SimIo>);
+
+impl TcpStream {
+    pub fn new<T: SimIo>(io: T) -> TcpStream {
+        TcpStream(Box::new(io))
+    }
+}
+
+impl fmt::Debug for TcpStream {
+    fn fmt(&self, f: &mut fmt::Formatter<'_>) -> fmt::Result {
+        f.write_str("verif_net::TcpStream")
+    }
+}
+
+impl AsyncRead for TcpStream {
+    fn poll_read(
+        mut self: Pin<&mut Self>,
+        cx: &mut Context<'_>,
+        buf: &mut ReadBuf<'_>,
+    ) -> Poll<io::Result<()>> {
+        Pin::new(&mut *self.0).poll_read(cx, buf)
+    }
+}
+
+impl AsyncWrite for TcpStream {
+    fn poll_write(
+        mut self: Pin<&mut Self>,
+        cx: &mut Context<'_>,
+        data: &[u8],
+    ) -> Poll<io::Result<usize>> {
+        Pin::new(&mut *self.0).poll_write(cx, data)
+    }
+
+    fn poll_flush(
+        mut self: Pin<&mut Self>,
+        cx: &mut Context<'_>,
+    ) -> Poll<io::Result<()>> {
+        Pin::new(&mut *self.0).poll_flush(cx)
+    }
+
+    fn poll_shutdown(
+        mut self: Pin<&mut Self>,
+        cx: &mut Context<'_>,
+    ) -> Poll<io::Result<()>> {
+        Pin::new(&mut *self.0).poll_shutdown(cx)
+    }
+
+    fn poll_write_vectored(
+        mut self: Pin<&mut Self>,
+        cx: &mut Context<'_>,
+        bufs: &[io::IoSlice<'_>],
+    ) -> Poll<io::Result<usize>> {
+        Pin::new(&mut *self.0).poll_write_vectored(cx, bufs)
+    }
+
+    fn is_write_vectored(&self) -> bool {
+        self.0.is_write_vectored()
+    }
+}
+
+/// Listening socket supplied by the simulator.  Dropping it is the simulated
+/// equivalent of closing the listening port.
+pub trait SimListener: Send + Sync + 'static {
+    fn local_addr(&self) -> SocketAddr;
+    fn poll_accept(
+        &self,
+        cx: &mut Context<'_>,
+    ) -> Poll<io::Result<(TcpStream, SocketAddr)>>;
+}
+
+/// Stand-in for `tokio::net::TcpListener`.
+pub struct TcpListener(Box<dyn SimListener>);
+
+type Binder = Box<dyn FnMut(SocketAddr) -> io::Result<Box<dyn SimListener>>>;
+
+thread_local! {
+    static BINDER: RefCell<Option<Binder>> = const { RefCell::new(None) };
+}
+
+/// Install (or with `None`, remove) the calling thread's binder.
+pub fn set_binder(binder: Option<Binder>) {
+    BINDER.with(|b| *b.borrow_mut() = binder);
+}
+
+impl TcpListener {
+    pub fn bind_sim(addr: SocketAddr) -> io::Result<TcpListener> {
+        BINDER.with(|b| match b.borrow_mut().as_mut() {
+            Some(binder) => binder(addr).map(TcpListener),
+            None => Err(io::Error::new(
+                io::ErrorKind::AddrNotAvailable,
+                "dropshot_verif: no simulated network on this thread",
+            )),
+        })
+    }
+
+    pub fn local_addr(&self) -> io::Result<SocketAddr> {
+        Ok(self.0.local_addr())
+    }
+
+    pub async fn accept(&self) -> io::Result<(TcpStream, SocketAddr)> {
+        std::future::poll_fn(|cx| self.0.poll_accept(cx)).await
+    }
+}
